@@ -63,6 +63,10 @@ func (inv execInvocation) GobEncode() ([]byte, error) {
 			}
 			continue
 		}
+		if v := reflect.ValueOf(arg); v.Kind() == reflect.Ptr && v.IsNil() {
+			// gob panics on a top-level nil pointer.
+			return nil, fmt.Errorf("encoding arg %d of type %v: cannot encode nil pointer", i, typ)
+		}
 		if err := enc.Encode(arg); err != nil {
 			return nil, fmt.Errorf("encoding arg %d of type %v: %v", i, typ, err)
 		}
